@@ -35,17 +35,21 @@ PROP = "C13"
 NS = "GitAi.HookMode."
 THEOREMS = [NS + t for t in [
     "events_equal_partial", "side_state_cleared_partial", "rebase_stop_masks", "witness_abort_leaves_mask",
-    "witness_commit_after_abort", "witness_noop_rebase_leaves_mask", "good_canon", "modes_equivalent_partial",
+    "checkpoint_after_abort_restores", "fix_tables", "regression_commit_after_abort", "witness_commit_after_abort",
+    "witness_reset_after_abort", "regression_noop_rebase_restores_mask", "good_canon", "modes_equivalent_partial",
     "good_of_complete", "modes_equivalent_complete", "no_double_execution", "no_double_execution_seq",
     "no_double_execution_tables", "hook_name_tables", "managed_dispatch_matches_model", "wrapper_dispatch_matches_model",
     "handled_kinds_match_model", "witness_stash_apply", "witness_checkout_force", "witness_checkout_merge",
     "witness_checkout_path", "witness_rebase_drop", "witness_rebase_squash", "witness_cherry_pick_batch",
+    "witness_rebase_autostash", "witness_pull_rebase_autostash",
     "witness_reset_unrecorded", "witness_reset_hard_same_head", "witness_reset_forward", "witness_stash_push_unrecorded"]]
 CORPUS = os.path.join(C.VERIF, "corpus", "C13", "scenarios.jsonl")
 WORKERS = 16
 MANAGED = ["pre-commit", "prepare-commit-msg", "post-commit", "pre-rebase", "post-checkout", "post-merge", "pre-push",
            "post-rewrite", "reference-transaction"]
 ZERO = "0" * 40
+# operations outside the alphabet of the Lean model on which the two modes are known to differ
+UNMODELLED_DIFFERING = {"cherry-pick-commit"}
 
 
 # ------------------------------------------------------------------ observed → model vocabulary
@@ -193,7 +197,7 @@ def run_scenario_once(job):
             sc.run_macro(name, prm)
             if len(sc.ops) >= job.get("max_ops", 14):
                 break
-        evaluate(sc, res)
+        evaluate(sc, res, sc.finish())
     except Exception as ex:
         res["failures"].append(("runner-exception", {"error": repr(ex), "trace": traceback.format_exc()[-1800:]}))
     finally:
@@ -209,7 +213,7 @@ def compact_step(s):
     return s
 
 
-def evaluate(sc, res):
+def evaluate(sc, res, final=None):
     ops = sc.ops
     res["nops"] = len(ops)
     res["tags"].extend(f"op={o['label']}" for o in ops)
@@ -247,6 +251,8 @@ def evaluate(sc, res):
         p = pred[k] if pred and k < len(pred) else None
         if lab == "revert":
             wh_done = True      # outside the common alphabet: the wrapper has no revert hook (B-vs-W still compared)
+        if lab in UNMODELLED_DIFFERING and taint is None:
+            taint = lab         # no Lean op for it; a recorded difference between the modes (known finding), twin run only
         # ---------------- correspondence with the model
         if p is not None:
             for t in "WHB":
@@ -292,7 +298,7 @@ def evaluate(sc, res):
             if bd:
                 diffs.append(("blame-differs", {"path": bd[0], "W": obs["W"]["blame"].get(bd[0]), "H": obs["H"]["blame"].get(bd[0])}))
             left = obs["H"]["side"] if not obs["H"]["in_progress"] else []
-            if p is not None and left == ["rebase_hook_mask_state.json"] and p["side"]["mask"]:
+            if p is not None and left == ["rebase_hook_mask_state.json"] and p["side"]["mask"] and stale == "rebase-abort":
                 # what the model says of `rebase --abort` (no hook left to run): the next commit / checkout restores the
                 # entry points; what an operation in between loses is compared on that operation
                 left = []
@@ -326,9 +332,12 @@ def evaluate(sc, res):
             nd = diff_maps(obs["W"]["notes"], obs["B"]["notes"])
             if nd:
                 diffs.append(("both-notes-differ", {"commit": ix(nd[0]), "W": obs["W"]["notes"].get(nd[0]), "B": obs["B"]["notes"].get(nd[0])}))
-            bd = diff_maps(obs["W"]["blame"], obs["B"]["blame"])
+            bw, bb = obs["W"]["blame"], obs["B"].get("blame")
+            if k == len(ops) - 1 and final and "B" in final:
+                bw, bb = final["W"], final["B"]         # blame of the both-installed twin: once, at the end
+            bd = diff_maps(bw, bb) if bb is not None else []
             if bd:
-                diffs.append(("both-blame-differs", {"path": bd[0], "W": obs["W"]["blame"].get(bd[0]), "B": obs["B"]["blame"].get(bd[0])}))
+                diffs.append(("both-blame-differs", {"path": bd[0], "W": bw.get(bd[0]), "B": bb.get(bd[0])}))
             if obs["B"]["side"]:
                 diffs.append(("both-side-state", {"files": obs["B"]["side"]}))
             if diffs:
@@ -387,12 +396,13 @@ def load_corpus():
     return jobs
 
 
-def phase(res, jobs, kind):
+def phase(res, jobs, kind0):
     with concurrent.futures.ThreadPoolExecutor(WORKERS) as ex:
         outs = list(ex.map(run_scenario, jobs))
     ties = 0
     for out in outs:
         job = out["job"]
+        kind = job.get("_kind") or kind0
         res.count_case(json.dumps(out["log"], ensure_ascii=False, sort_keys=True), nontrivial=out["nops"] >= 3)
         res.tag([f"{kind}:macro={m[0]}" for m in job["macros"]] + out["tags"])
         res.tags["ops-compared:W-vs-H"] = res.tags.get("ops-compared:W-vs-H", 0) + out["compared"]["WH"]
@@ -414,9 +424,12 @@ def phase(res, jobs, kind):
 
 def run(tier, seed):
     res = C.Result(PROP, tier, seed)
-    res.rule = ("end-to-end twin run: generated macro sequences (work/amend, rebase plain|--onto|-i reorder|squash|fixup|drop, conflict "
-                "stop+continue|skip|abort, cherry-pick single|range|-n|conflict, reset soft|mixed|hard (+unrecorded edits, same head, "
-                "forward), stash push/pop/apply, merge --squash, checkout/switch plain|-c|-f|-m|paths, pull ff|rebase, revert) executed "
+    res.rule = ("end-to-end twin run: generated macro sequences (work/amend, rebase plain|--onto|with strategy options (-X <v>, -s <v>, "
+                "--empty <v>, …)|--autostash|nothing to replay|-i reorder|squash|fixup|drop, conflict stop+continue|skip|abort "
+                "(then agent edit | commit by hand | reset), cherry-pick single|range|-n|conflict (continue | abort | concluded with git commit), "
+                "reset soft|mixed|hard (+unrecorded edits, same head, forward), stash push/pop/apply, merge --squash, checkout/switch "
+                "plain|-c|-f|-m|paths, pull ff|rebase|rebase with every local commit already upstream|rebase --autostash, revert, "
+                "the first git-ai checkpoint after an aborted rebase as an operation of its own) executed "
                 "in lock-step in a wrapper-mode, a hooks-mode, a both-installed and a hook-tracing repository with identical dates; "
                 "non-trivial = at least 3 compared operations")
     res.trusted = ["Lean 4.33 kernel", "extract/hook_tables.py", "vlib/props/c13*.py (twin runner, canonicalisation, independent note parser of vlib/e2e.py)",
@@ -455,8 +468,13 @@ def run(tier, seed):
     corpus = [j for j in load_corpus() if tier == "thorough" or j.get("tier") != "thorough"]
     n = 16 if tier == "quick" else 400
     jobs = [gen_job(seed * 100000 + i, "agree" if i % 2 == 0 else "full") for i in range(n)]
-    outs, ties = phase(res, corpus, "corpus")
-    outs2, ties2 = phase(res, jobs, "gen")
+    # one pool for both (no barrier between the corpus and the generated scenarios); corpus results are reported first
+    for j in corpus:
+        j["_kind"] = "corpus"
+    for j in jobs:
+        j["_kind"] = "gen"
+    outs_all, ties_all = phase(res, corpus + jobs, None)
+    outs, outs2, ties, ties2 = outs_all[:len(corpus)], outs_all[len(corpus):], ties_all, 0
     res.obligation("correspondence:fires+journal+side-state (model vs twins)", ties + ties2 == 0, "correspondence")
     res.extra["twin"] = {"corpus": len(corpus), "generated": len(jobs), "model_disagreements": ties + ties2,
                          "scenarios_agreeing": sum(1 for o in outs + outs2 if "scenario=agreeing" in o["tags"]),
